@@ -229,6 +229,48 @@ def lean_re(t, alpha):
     if k == 'bol': return '.eps'
     raise TranslateError(k)
 
+def lean_gre(t, alpha, anchored_only=True):
+    """ordered, greedy, with groups: for the capture-reporting matcher"""
+    k = t[0]
+    if k == 'cls': return '(.cls %d)' % alpha.mask(t[1])
+    if k == 'group': return '(.grp %d %s)' % (t[1], lean_gre(t[3], alpha))
+    if k == 'seq':
+        items = [x for x in t[1] if x[0] != 'bol']
+        if not items: return '.eps'
+        r = None
+        for x in reversed(items):
+            lx = lean_gre(x, alpha); r = lx if r is None else '(.cat %s %s)' % (lx, r)
+        return r
+    if k == 'alts':
+        r = None
+        for x in reversed(t[1]):
+            lx = lean_gre(x, alpha); r = lx if r is None else '(.alt %s %s)' % (lx, r)
+        return r
+    if k == 'rep':
+        _, lo, hi, sub = t; s = lean_gre(sub, alpha)
+        if hi is None: r = '(.star %s)' % s
+        else:
+            r = None
+            for _ in range(hi - lo):
+                r = '(.alt %s .eps)' % s if r is None else '(.alt (.cat %s %s) .eps)' % (s, r)     # greedy: one more first
+            if r is None: r = '.eps'
+        for _ in range(lo):
+            r = s if r == '.eps' else '(.cat %s %s)' % (s, r)
+        return r
+    if k == 'eol': return '(.eol %d)' % alpha.mask(((10, 10),))
+    if k == 'bol': return '.eps'
+    raise TranslateError(k)
+
+def parse_prefix(pattern_text, flags=0):
+    """patterns used as prefix matchers (`^\\d+`): leading ^ only"""
+    if flags & ~re.UNICODE: raise TranslateError('flags %r' % flags)
+    st = sp.parse(pattern_text)
+    names = {v: k for k, v in st.state.groupdict.items()}
+    t = tr(st, names)
+    _chk(t, True, False)
+    if not _starts_bol(t): raise TranslateError('prefix pattern does not start with ^')
+    return t
+
 def load_patterns(repo):
     """{name: pattern text} for every compiled regex in athlib.codes.__all__ (from the working tree)"""
     import importlib.util
@@ -251,8 +293,16 @@ def generate(repo, outdir):
             trees[n] = parse(p, fl)
         except (TranslateError, re.error) as e:
             errors[n] = repr(e)
+    prefix = {}
+    for n in list(errors):
+        try:
+            prefix[n] = parse_prefix(*pats[n]); del errors[n]
+        except (TranslateError, re.error):
+            pass
     classes = set()
     for t in trees.values(): collect_classes(t, classes)
+    for t in prefix.values(): collect_classes(t, classes)
+    classes |= {tuple(cat_ranges('space')), tuple(cat_ranges('digit')), ((46, 46),), ((48, 57),), ((65, 90),), ((97, 122),)}
     alpha = Alphabet(classes)
     A = ['-- GENERATED by tools/gen_regex.py from athlib/codes.py; do not edit',
          'import AthlibVerif.Model.Regex', 'namespace AthlibVerif.Gen',
@@ -271,18 +321,113 @@ def generate(repo, outdir):
     P.append('/-- name -> pattern, for the driver -/')
     P.append('def patternTable : List (String × RE) := [%s]' % ', '.join('("%s", %s)' % (n, n) for n in sorted(trees)))
     P.append('end AthlibVerif.Gen')
+    G = ['-- GENERATED by tools/gen_regex.py from athlib/codes.py; do not edit',
+         'import AthlibVerif.Model.Match', 'namespace AthlibVerif.Gen', 'open AthlibVerif']
+    allg = dict(trees); allg.update(prefix)
+    for n in sorted(allg):
+        G.append('def G_%s : GRE := %s' % (n, lean_gre(allg[n], alpha)))
+    G.append('def gPatternTable : List (String × GRE) := [%s]' % ', '.join('("%s", G_%s)' % (n, n) for n in sorted(allg)))
+    def names_of(t, acc):
+        k = t[0]
+        if k == 'group':
+            if t[2]: acc.append((t[2], t[1]))
+            names_of(t[3], acc)
+        elif k in ('seq', 'alts'):
+            for x in t[1]: names_of(x, acc)
+        elif k == 'rep': names_of(t[3], acc)
+        return acc
+    G.append('/-- named groups of each pattern: name -> group number -/')
+    G.append('def gGroupNames : List (String × List (String × Nat)) := [%s]' % ', '.join(
+        '("%s", [%s])' % (n, ', '.join('("%s", %d)' % (a, b) for a, b in names_of(allg[n], []))) for n in sorted(allg)))
+    G.append('def spaceMask : Nat := %d' % alpha.mask(tuple(cat_ranges('space'))))
+    G.append('def digitMask : Nat := %d' % alpha.mask(tuple(cat_ranges('digit'))))
+    G.append('def asciiDigitMask : Nat := %d' % alpha.mask(((48, 57),)))
+    G.append('def dotMask : Nat := %d' % alpha.mask(((46, 46),)))
+    dz = []
+    for lo, hi in cat_ranges('digit'):
+        if (hi - lo + 1) % 10: raise TranslateError('digit block not a multiple of ten')
+        import unicodedata
+        if unicodedata.digit(chr(lo)) != 0: raise TranslateError('digit block does not start at zero')
+        dz.append((lo, hi))
+    G.append('/-- blocks of decimal digits (each starts at a zero digit, length a multiple of ten): value = (cp - lo) % 10 -/')
+    G.append('def digitBlocks : List (Nat × Nat) := [%s]' % ', '.join('(%d, %d)' % d for d in dz))
+    # upper-casing as a map on symbols, for the symbols PAT_EVENT_CODE uses (identity elsewhere)
+    used = 0
+    def masks_of(t):
+        nonlocal used
+        k = t[0]
+        if k == 'cls': used |= alpha.mask(t[1])
+        elif k in ('seq', 'alts'):
+            for x in t[1]: masks_of(x)
+        elif k in ('rep', 'group'): masks_of(t[3])
+    if 'PAT_EVENT_CODE' in trees: masks_of(trees['PAT_EVENT_CODE'])
+    used |= alpha.mask(((10, 10),))
+    up = list(range(alpha.nsym))
+    for lo, hi, sy in alpha.atoms:
+        if not (used >> sy) & 1: continue
+        for cp in range(lo, hi + 1):
+            if 0xD800 <= cp <= 0xDFFF: continue
+            u = chr(cp).upper()
+            if len(u) != 1: raise TranslateError('upper() of U+%04X is not one character' % cp)
+            su = alpha.sym_of(ord(u))
+            if up[sy] != sy and up[sy] != su or (up[sy] == sy and su != sy and any(True for _ in [0]) and False):
+                raise TranslateError('upper() is not a function on symbols at U+%04X' % cp)
+            if su != sy: up[sy] = su
+    # consistency: every code point of a used symbol must map into up[sy]
+    for lo, hi, sy in alpha.atoms:
+        if not (used >> sy) & 1: continue
+        for cp in range(lo, hi + 1):
+            if 0xD800 <= cp <= 0xDFFF: continue
+            if alpha.sym_of(ord(chr(cp).upper())) != up[sy]:
+                raise TranslateError('upper() is not a function on symbols at U+%04X' % cp)
+    G.append('/-- str.upper as a map on symbols (for the symbols PAT_EVENT_CODE uses; identity elsewhere) -/')
+    G.append('def upperSym : List Nat := [%s]' % ', '.join(map(str, up)))
+    G.append('end AthlibVerif.Gen')
     side = {'nsym': alpha.nsym, 'atoms': alpha.atoms, 'patterns': {n: pats[n][0] for n in pats},
-            'translated': sorted(trees), 'errors': errors,
+            'translated': sorted(trees), 'prefix': sorted(prefix), 'errors': errors,
             'rep': [alpha.rep[s] for s in range(alpha.nsym)]}
     files = {os.path.join(outdir, 'Alphabet.lean'): '\n'.join(A) + '\n',
              os.path.join(outdir, 'Patterns.lean'): '\n'.join(P) + '\n',
+             os.path.join(outdir, 'GPatterns.lean'): '\n'.join(G) + '\n',
              os.path.join(outdir, 'patterns.json'): json.dumps(side, indent=0, sort_keys=True) + '\n'}
     return files, side, alpha, trees, mod
+
+def gen_codes_data(repo, outdir, mod=None):
+    """FIELD_SORT_ORDER and the code tuples of athlib.codes (live module), the group -> normaliser map of
+    athlib.utils (`_gnorms = dict(name=_norm_x, ...)`, read with ast)"""
+    import ast as _ast
+    if mod is None:
+        _, mod = load_patterns(repo)
+    src = open(os.path.join(repo, 'athlib', 'utils.py')).read()
+    gn = None
+    for node in _ast.walk(_ast.parse(src)):
+        if isinstance(node, _ast.Assign) and any(isinstance(t, _ast.Name) and t.id == '_gnorms' for t in node.targets):
+            v = node.value
+            if isinstance(v, _ast.Call) and getattr(v.func, 'id', None) == 'dict':
+                gn = [(k.arg, k.value.id) for k in v.keywords if isinstance(k.value, _ast.Name)]
+            elif isinstance(v, _ast.Dict):
+                gn = [(k.value, x.id) for k, x in zip(v.keys, v.values) if isinstance(x, _ast.Name)]
+    if gn is None: raise TranslateError('_gnorms not found in athlib/utils.py')
+    kinds = {'_norm_g': '.g', '_norm_cm': '.cm', '_norm_m': '.m', '_norm_kg': '.kg'}
+    for _, f in gn:
+        if f not in kinds: raise TranslateError('unknown normaliser %s' % f)
+    def strs(name):
+        v = getattr(mod, name)
+        return '[%s]' % ', '.join(json.dumps(str(x)) for x in v)
+    L = ['-- GENERATED by tools/gen_regex.py from athlib/codes.py and athlib/utils.py; do not edit',
+         'namespace AthlibVerif.Gen',
+         'inductive NormKind | g | cm | m | kg deriving Repr, DecidableEq',
+         'def gnorms : List (String × NormKind) := [%s]' % ', '.join('(%s, %s)' % (json.dumps(a), kinds[b]) for a, b in gn)]
+    for n in ('FIELD_SORT_ORDER', 'FIELD_EVENTS', 'MULTI_EVENTS', 'CUSTOM_EVENTS', 'JUMPS', 'THROWS'):
+        L.append('def %s : List String := %s' % (n, strs(n)))
+    L.append('end AthlibVerif.Gen')
+    return {os.path.join(outdir, 'CodesData.lean'): '\n'.join(L) + '\n'}
 
 if __name__ == '__main__':
     repo = os.environ.get('ATHLIB_REPO', '/repo')
     out = sys.argv[1]
     files, side, alpha, trees, mod = generate(repo, out)
+    files.update(gen_codes_data(repo, out, mod))
     for p, txt in files.items():
         old = open(p).read() if os.path.exists(p) else None
         if old != txt:
